@@ -496,6 +496,11 @@ def classify(v, R=None):
             return K_TRASH
         if info['where'] == 'pool' and info['pool_shutdown'] and cr in ('pool-replace', 'pool-grow') and not info['conn_in_a_pool_at_call']:
             return K_INSTALL
+        if info['where'] is None and cr == 'pool-replace' and (info['task'] or {}).get('fn', '').endswith('HostConnection._replace') and not info['connected_at_call'] \
+                and not info['conn_in_a_pool_at_call'] and not (info['task'] or {}).get('submitted_after_return') and info['proto'] >= 3:
+            # same late _replace; HostConnection.shutdown was between closing the old connection and `self._connection = None` when the
+            # replacement was stored: the slot is wiped without closing what is in it
+            return K_INSTALL
         if info['where'] == 'trash' and info['pool_shutdown'] and info['pool'] == 'HostConnection' and not info['was_in_trash_at_call'] \
                 and info['conn_in_a_pool_at_call'] and info['orphan_threshold_reached']:
             # the same _replace finishing after shutdown: it installs the new connection (closed by the shutdown that follows or not) and
